@@ -186,7 +186,7 @@ pub fn check(seq: &[Fault], case_id: u64) -> Result<Outcome, String> {
         .stderr(Stdio::null())
         .spawn()
         .map_err(|e| format!("cannot start the CLI: {}", e))?;
-    let result = drive(seq, &mut peer, &mut child, &outpath, starts_refused);
+    let result = drive(seq, &mut peer, &mut child, &outpath, starts_refused, use_host);
     let _ = child.kill();
     let _ = child.wait();
     let _ = std::fs::remove_file(&outpath);
@@ -202,7 +202,7 @@ fn alive(child: &mut Child, when: &str) -> Result<(), String> {
     }
 }
 
-fn drive(seq: &[Fault], peer: &mut Peer, child: &mut Child, outpath: &std::path::Path, starts_refused: bool) -> Result<Outcome, String> {
+fn drive(seq: &[Fault], peer: &mut Peer, child: &mut Child, outpath: &std::path::Path, starts_refused: bool, use_host: bool) -> Result<Outcome, String> {
     let mut learned: Vec<u32> = Vec::new();
     let mut must_not: Vec<u32> = Vec::new();
     let mut k = 0u32;
@@ -228,7 +228,8 @@ fn drive(seq: &[Fault], peer: &mut Peer, child: &mut Child, outpath: &std::path:
         peer.open().map_err(|e| format!("harness: cannot open the port: {}", e))?;
         let Some(mut conn) = peer.accept(Duration::from_secs(60)) else {
             alive(child, "instead of reconnecting")?;
-            return Ok(Outcome::Inconclusive("no reconnect within 60 s".into()));
+            // the peer has been listening for a whole minute (the decoder pauses ~5 s between attempts)
+            return Err(format!("the decoder did not connect to the listening peer within 60 s (step {} of {:?}{}): it does not keep retrying until a connection succeeds", i, seq, if use_host { ", address given as localhost:<port>" } else { "" }));
         };
         if let Some(t0) = refused_at.take() {
             let waited = t0.elapsed().as_secs_f64();
